@@ -178,17 +178,19 @@ Theorem fibonacci_lucas_correct n :
   nt_fibonacci n = fib (Z.to_nat n) /\
   nt_fibonacci2 n = (fib (Z.to_nat n), fib (S (Z.to_nat n)) - fib (Z.to_nat n)) /\
   nt_lucas n = lucas (Z.to_nat n) /\
-  (1 <= n -> nt_lucas2 n = Ok (lucas (Z.to_nat n), lucas (Z.to_nat (n - 1)))).
+  (1 <= n -> nt_lucas2 n = Ok (lucas (Z.to_nat n), lucas (Z.to_nat (n - 1)))) /\
+  (n = 0 -> nt_lucas2 n = Ok (2, -1)).
 Proof.
   intros Hn.
   unfold nt_fibonacci, nt_fibonacci2, nt_lucas, nt_lucas2, mp_fib, mp_fib2, mp_lucnum, mp_lucnum2,
     fib_matrix, luc_matrix.
   rewrite mpow_correct, fib_matrix_nat by assumption.
-  split; [reflexivity|]. split; [reflexivity|]. split.
+  split; [reflexivity|]. split; [reflexivity|]. split; [|split].
   - unfold mmul. rewrite (proj1 (lucas_fib (Z.to_nat n))). ring.
   - intros H1. destruct (n =? 0) eqn:E; [lia|].
     rewrite mpow_correct, fib_matrix_nat by lia. unfold mmul.
     replace (Z.to_nat n) with (S (Z.to_nat (n - 1))) by lia.
     set (k := Z.to_nat (n - 1)).
     rewrite (proj1 (lucas_fib (S k))), (proj1 (lucas_fib k)), (fib_SS k). f_equal. f_equal; ring.
+  - intros ->. reflexivity.
 Qed.
